@@ -109,6 +109,13 @@ func scenariosC04() []*scenario {
 	// parseable certificates (names-tile lines) on both sides of a tile boundary, with a failed round in between
 	out = append(out, &scenario{name: "c04/s254/names-across-boundary", base: 254, opt: options{faults: true}, bound: 1,
 		rounds: [][]string{{"X1"}, {"b", "X2"}, {"c"}}, checkC04: true, uploadsInOrder: true})
+	// failures that look like timeouts (they wrap context.DeadlineExceeded): an error
+	// classification that lets them through must not publish over missing tiles
+	for _, s0 := range []int64{0, 255} {
+		o := options{faults: true, deadlineErrs: true}
+		out = append(out, &scenario{name: fmt.Sprintf("c04/s%d/timeouts", s0), base: s0, opt: o, bound: 1,
+			rounds: [][]string{{"a", "b+1"}, {}, {"c"}}, checkC04: true, uploadsInOrder: true})
+	}
 	// crash/restart combined with clock anomalies: leaf timestamps must never exceed a later tree head's
 	out = append(out, &scenario{name: "c04/s0/clock", base: 0, opt: allOpts(), bound: 2, rounds: [][]string{{"a", "b"}, {"c"}}, checkC04: true})
 	// concurrent submitters sharing a new issuer, racing with the rounds
